@@ -159,11 +159,27 @@ class Summary:
             if head(t) == "loopret" and strip(t[2]) == ("next",):
                 return t[3]
             return t
+        TRUE_ = ("const", "bool", True)
+
+        def holds(t):
+            """carried values: an asserted condition that became part of a branch condition is true there"""
+            if not isinstance(t, tuple):
+                return t
+            if head(t) is not None and strip_all(t) in asserted:
+                return TRUE_
+            t = tuple(holds(x) for x in t)
+            if head(t) == "and":
+                rest = tuple(x for x in t[1] if strip(x) != TRUE_)
+                return TRUE_ if not rest else rest[0] if len(rest) == 1 else ("and", rest)
+            if head(t) == "ite" and strip(t[1]) == TRUE_:
+                return t[2]
+            return t
         events = [Event(e.kind, cx(e.ctx), e.node, e.data, e.seq) for e in self.events]
         loops = LoopTable()
         for lid in dict.keys(self.loops):
             lp = dict.__getitem__(self.loops, lid)
-            dict.__setitem__(loops, lid, LoopInfo(lp.lid, lp.kind, lp.iterable, lp.elem, lp.target, lp.init, lp.update, cx(lp.ctx), lp.node, lp.tree, lp.target_names, lp.breaks))
+            upd = {k: holds(v) for k, v in lp.update.items()} if isinstance(lp.update, dict) else lp.update
+            dict.__setitem__(loops, lid, LoopInfo(lp.lid, lp.kind, lp.iterable, lp.elem, lp.target, lp.init, upd, cx(lp.ctx), lp.node, lp.tree, lp.target_names, lp.breaks))
         return Summary(self.func, self.params, self.tree, clean(self.ret), events, loops, self.env, self.unbound, self.is_generator)
 
     def mapped(self, fn):
@@ -979,24 +995,33 @@ class Evaluator:
         chain it abbreviates; anything else is outside the idiom list."""
         subj = st.subject
 
-        def cond(p):
+        def cond(p, subj=subj):
             """(test expression | None for 'always', [(name, value expression)] captures)"""
             if isinstance(p, ast.MatchValue):
                 return ast.Compare(left=subj, ops=[ast.Eq()], comparators=[p.value]), []
             if isinstance(p, ast.MatchSingleton):
                 return ast.Compare(left=subj, ops=[ast.Is()], comparators=[ast.Constant(value=p.value)]), []
             if isinstance(p, ast.MatchOr):
-                parts = [cond(q) for q in p.patterns]
+                parts = [cond(q, subj) for q in p.patterns]
                 if any(c is None for c, _ in parts) or any(b for _, b in parts):
                     raise AnalysisBroken(f"match statement at line {st.lineno}: alternative with wildcard / capture is outside the evaluator's idiom list")
                 return ast.BoolOp(op=ast.Or(), values=[c for c, _ in parts]), []
             if isinstance(p, ast.MatchAs):
                 if p.pattern is None:
                     return None, ([(p.name, subj)] if p.name else [])
-                c, b = cond(p.pattern)
+                c, b = cond(p.pattern, subj)
                 return c, b + ([(p.name, subj)] if p.name else [])
             if isinstance(p, ast.MatchClass) and not p.patterns and not p.kwd_patterns:
                 return ast.Call(func=ast.Name(id="isinstance", ctx=ast.Load()), args=[subj, p.cls], keywords=[]), []
+            if isinstance(p, ast.MatchSequence) and isinstance(subj, (ast.Tuple, ast.List)) and len(p.patterns) == len(subj.elts) \
+                    and not any(isinstance(q, ast.MatchStar) for q in p.patterns) and not any(isinstance(e, ast.Starred) for e in subj.elts):
+                # a tuple display matched against a sequence pattern of the same length: component by component
+                parts = [cond(q, e) for q, e in zip(p.patterns, subj.elts)]
+                tests = [c for c, _ in parts if c is not None]
+                binds = [b_ for _, b in parts for b_ in b]
+                if not tests:
+                    return None, binds
+                return (tests[0] if len(tests) == 1 else ast.BoolOp(op=ast.And(), values=tests)), binds
             raise AnalysisBroken(f"match statement at line {st.lineno}: pattern {type(p).__name__} is outside the evaluator's idiom list")
         chain = None
         for case in reversed(st.cases):
